@@ -23,7 +23,6 @@ import (
 	"fmt"
 	"hash/fnv"
 	"runtime/debug"
-	"sort"
 	"testing"
 	"time"
 
@@ -170,15 +169,17 @@ func c08KeysPerType() int {
 // ---------- accounting ----------
 
 type c08Acct struct {
-	r     *vrep.Result
-	t     testing.TB
-	seen  map[uint64]struct{}
-	tick  int
-	stop  bool
-	npan  int
-	shard int
-	nsh   int
-	item  int
+	r      *vrep.Result
+	t      testing.TB
+	seen   map[uint64]struct{}
+	tick   int
+	stop   bool
+	npan   int
+	shard  int
+	nsh    int
+	item   int
+	nsamp  int
+	sclass map[string]bool
 }
 
 func c08New(t testing.TB, part string) *c08Acct {
@@ -252,6 +253,20 @@ func (a *c08Acct) guard(what string, f func()) (panicked bool) {
 	}()
 	f()
 	return false
+}
+
+// sample keeps at most `limit` samples per section and one per class (the merged evidence shows 12 samples
+// over all sections, so every section contributes one or two).
+func (a *c08Acct) sample(limit int, class string, v any) {
+	if a.nsamp >= limit || a.sclass[class] {
+		return
+	}
+	if a.sclass == nil {
+		a.sclass = map[string]bool{}
+	}
+	a.sclass[class] = true
+	a.nsamp++
+	a.r.Sample(v)
 }
 
 func (a *c08Acct) flush() {
@@ -532,13 +547,4 @@ func c08AllMuts(orig []byte, sch c08Schema, structural bool, f func(m c08Mut) bo
 		return c08StructMuts(orig, sch, f)
 	}
 	return true
-}
-
-func c08SortedKeys(m map[string]int) []string {
-	var out []string
-	for k := range m {
-		out = append(out, k)
-	}
-	sort.Strings(out)
-	return out
 }
